@@ -33,6 +33,16 @@ def toolCountsForever (n : Int) : Nat × Nat :=
   let r := transcribeWithTools ⟨n, true, true, true⟩ foreverTools ()
   (toolRounds r.evs, completions r.evs)
 
+/-- workers that never succeed; the `n`-th summarizer answer is `[n]` (state: steps made, summaries made) -/
+def hintingSwarm : SwarmAdv (Nat × Nat) Unit Nat (List Nat) Unit Unit :=
+  ⟨fun s _ _ => (s, .ok ()), fun s _ _ => ((s.1 + 1, s.2), .ok s.1), fun s _ => ((s.1, s.2 + 1), .ok [s.2]), fun _ => ()⟩
+
+/-- hints shown to each spawn, and (apoptosis events, regeneration events, workers) added, by the model's
+    `supervise` with `max_regenerations = 3`, `max_steps_per_worker = 2` -/
+def hintsSeen : List (List Nat) × (Nat × Nat × Nat) :=
+  let r := supervise neverCode ⟨3, 2⟩ hintingSwarm () [] ⟨0, [], []⟩ (0, 0)
+  (r.spawns.map (·.hints), (r.sw.apop.length, r.sw.regen.length, r.sw.counter))
+
 /-- a provider that asks for one tool on every round; the `n`-th tool execution returns `n` -/
 def countingTools : ToolAdv Nat Unit Unit Nat :=
   ⟨fun s _ => (s, .ok ((), [()])), fun s _ => (s, .ok ()), fun s _ => (s + 1, .ok s)⟩
